@@ -152,7 +152,9 @@ def main(argv=None):
             monitor_evals[k] = monitor_evals.get(k, 0) + v
     skipped = sum(f.get("skipped_for_time", 0) for f in finals)
     reach = merge_reports([f.get("reach", {}) for f in finals])
-    distinct_nt = len(nt_set) + nt_count
+    distinct_nt = len(nt_set) + nt_count + int(getattr(drv, "_nt", 0) or 0)
+    if getattr(drv, "_sample", None) is not None and len(samples) < 6:
+        samples.append(drv._sample)
 
     # ---- ledger
     ledger = [e for e in load_ledger() if e.get("property") == pid]
